@@ -156,3 +156,23 @@ pub fn quote_user_level(bank: &Bank, pool: &Pubkey, oracle: &Pubkey, supplied: &
         Err(_) => json!({"present": true, "ok": false, "in": 0, "out": 0, "bound": 0, "fee": 0, "bps": slippage_bps, "err": "panic"}),
     }
 }
+
+/// The SDK's liquidity quotes (`increase_liquidity_quote` / `decrease_liquidity_quote`: token estimates of a liquidity
+/// amount at the pool price, transfer fees of both mints applied, slippage-adjusted maxima / minima) on the pre-state.
+#[allow(clippy::too_many_arguments)]
+pub fn quote_liquidity(bank: &Bank, pool: &Pubkey, mint_a: &Pubkey, mint_b: &Pubkey, lo: i32, up: i32, liquidity: u128, increase: bool, epoch: u64, slippage_bps: u16) -> Value {
+    let wp = whirlpool_facade(bank, pool);
+    let (tfa, tfb) = (transfer_fee_of(bank, mint_a, epoch), transfer_fee_of(bank, mint_b, epoch));
+    let r = std::panic::catch_unwind(std::panic::AssertUnwindSafe(|| {
+        if increase {
+            core_sdk::increase_liquidity_quote(liquidity, slippage_bps, wp.sqrt_price, lo, up, tfa, tfb).map(|q| (q.token_est_a, q.token_est_b, q.token_max_a, q.token_max_b))
+        } else {
+            core_sdk::decrease_liquidity_quote(liquidity, slippage_bps, wp.sqrt_price, lo, up, tfa, tfb).map(|q| (q.token_est_a, q.token_est_b, q.token_min_a, q.token_min_b))
+        }
+    }));
+    match r {
+        Ok(Ok((ea, eb, ba, bb))) => json!({"present": true, "ok": true, "estA": nu(ea as u128), "estB": nu(eb as u128), "boundA": nu(ba as u128), "boundB": nu(bb as u128), "bps": slippage_bps, "err": ""}),
+        Ok(Err(e)) => json!({"present": true, "ok": false, "estA": 0, "estB": 0, "boundA": 0, "boundB": 0, "bps": slippage_bps, "err": e}),
+        Err(_) => json!({"present": true, "ok": false, "estA": 0, "estB": 0, "boundA": 0, "boundB": 0, "bps": slippage_bps, "err": "panic"}),
+    }
+}
